@@ -29,6 +29,7 @@ R18.7 axis-swap symmetry of the contour moments: the polynomial of a_qp is
 from __future__ import annotations
 
 import ast
+import itertools
 import re
 from fractions import Fraction
 
@@ -809,18 +810,66 @@ def r186(ctx, repo):
 # ----------------------------------------------------------------------
 # R18.5
 
+SAMPLE = {"ct21": Fraction(1, 7), "ct31": Fraction(1, 11),
+          "ct12": Fraction(1, 5), "ct32": Fraction(1, 13),
+          "ct13": Fraction(1, 17), "ct23": Fraction(1, 19),
+          "t1": Fraction(3), "t2": Fraction(5), "t3": Fraction(11)}
+
+
+def _poly_at(p, point):
+    tot = Fraction(0)
+    for mono, cf in p.t.items():
+        v = Fraction(cf)
+        for sym, e in mono:
+            if sym not in point:
+                raise AnalysisError(f"crosstalk model: free symbol {sym}")
+            v *= point[sym] ** e
+        tot += v
+    return tot
+
+
 class Sym(Rat):
-    """non-negative symbolic coefficient / signal"""
+    """exact rational function with closed arithmetic; branch conditions on
+    symbolic values are decided at a generic point of the domain (small
+    positive coefficients, SAMPLE) - the other regions of the domain are
+    covered by the numeric grid of R18.5"""
 
-    def __lt__(self, o):
-        if o == 0:
-            return False
-        raise AnalysisError("comparison of a symbolic value")
+    def at(self, point=SAMPLE):
+        d = _poly_at(self.d, point)
+        if d == 0:
+            raise AnalysisError("crosstalk model: pole at the sample point")
+        return _poly_at(self.n, point) / d
 
-    def __ge__(self, o):
-        if o == 0:
-            return True
-        raise AnalysisError("comparison of a symbolic value")
+    @staticmethod
+    def of(v):
+        r = _rat(v)
+        return r if isinstance(r, Sym) else Sym(r.n, r.d)
+
+    def _w(self, r):
+        return Sym(r.n, r.d)
+
+    def __add__(self, o): return self._w(Rat.__add__(self, _rat(o)))
+    def __radd__(self, o): return self._w(Rat.__add__(_rat(o), self))
+    def __sub__(self, o): return self._w(Rat.__sub__(self, _rat(o)))
+    def __rsub__(self, o): return self._w(Rat.__sub__(_rat(o), self))
+    def __mul__(self, o): return self._w(Rat.__mul__(self, _rat(o)))
+    def __rmul__(self, o): return self._w(Rat.__mul__(_rat(o), self))
+    def __truediv__(self, o): return self._w(Rat.__truediv__(self, _rat(o)))
+    def __rtruediv__(self, o): return self._w(Rat.__truediv__(_rat(o), self))
+    def __neg__(self): return self._w(Rat.__neg__(self))
+    def __pow__(self, k): return self._w(Rat.__pow__(self, k))
+    def __abs__(self): return self if self.at() >= 0 else -self
+
+    def _c(self, o):
+        return Sym.of(o).at()
+
+    def __lt__(self, o): return self.at() < self._c(o)
+    def __le__(self, o): return self.at() <= self._c(o)
+    def __gt__(self, o): return self.at() > self._c(o)
+    def __ge__(self, o): return self.at() >= self._c(o)
+    def __eq__(self, o): return self.at() == self._c(o)
+    def __ne__(self, o): return self.at() != self._c(o)
+    __hash__ = Rat.__hash__
 
 
 def _rat(v):
@@ -830,6 +879,8 @@ def _rat(v):
         return Rat(Poly.const(v))
     if isinstance(v, float) and v == int(v):
         return Rat(Poly.const(int(v)))
+    if isinstance(v, float):
+        return Rat(Poly.const(Fraction(v).limit_denominator(10**9)))
     raise AnalysisError(f"crosstalk model: value {v!r}")
 
 
@@ -854,14 +905,26 @@ def _inv(m):
             c = minor(j, i)
             if (i + j) % 2:
                 c = -c
-            out[i][j] = c / det
+            out[i][j] = Sym.of(c / det)
+    if det.n.is_zero():
+        raise L.ModelFault("LinAlgError", "Singular matrix")
     return L.Mat(out)
+
+
+def _det(m):
+    if not isinstance(m, L.Mat) or m.shape != (3, 3):
+        raise L.ModelFault("LinAlgError", "determinant of a non 3x3 matrix")
+    a = [[_rat(v) for v in r] for r in m.rows]
+    det = (a[0][0] * (a[1][1] * a[2][2] - a[1][2] * a[2][1])
+           - a[0][1] * (a[1][0] * a[2][2] - a[1][2] * a[2][0])
+           + a[0][2] * (a[1][0] * a[2][1] - a[1][1] * a[2][0]))
+    return Sym.of(det)
 
 
 def r185(ctx, repo):
     it = L.Interp(repo)
     np_ = L.NPModel()
-    np_.linalg = L.namespace("np.linalg", inv=_inv)
+    np_.linalg = L.namespace("np.linalg", inv=_inv, det=_det)
     env = it.env(CT, {"np": np_})
     cc_node = repo.func(CT, "correct_crosstalk")
     gm_node = repo.func(CT, "get_compensation_matrix")
@@ -898,6 +961,50 @@ def r185(ctx, repo):
                + (f"{res[0]} {res[1]}" if res[0] != "ok" else "different "
                   "rational function") + ")", node=cc_node,
                label=f"inverts the modelled spill-over, channel {k}")
+    # the whole domain: every non-negative *invertible* spill matrix, also
+    # with a negative determinant (strong mutual spill), must be inverted -
+    # numeric grid, exact arithmetic
+    F = Fraction
+    tv = [F(3), F(5), F(11)]
+    grid = []
+    for v12, v21, v13 in itertools.product((F(0), F(1, 2), F(2)), repeat=3):
+        cf = {"ct12": v12, "ct21": v21, "ct13": v13, "ct31": F(1, 3),
+              "ct23": F(0), "ct32": F(1)}
+        mat = [[F(1) if i == j else cf[f"ct{i}{j}"] for j in (1, 2, 3)]
+               for i in (1, 2, 3)]
+        d = (mat[0][0] * (mat[1][1] * mat[2][2] - mat[1][2] * mat[2][1])
+             - mat[0][1] * (mat[1][0] * mat[2][2] - mat[1][2] * mat[2][0])
+             + mat[0][2] * (mat[1][0] * mat[2][1] - mat[1][1] * mat[2][0]))
+        if d != 0:
+            grid.append((cf, mat, d))
+    for sign, lab in ((1, "positive"), (-1, "negative")):
+        sel = [g for g in grid if (g[2] > 0) == (sign > 0)]
+        if not sel:
+            raise AnalysisError("crosstalk grid lost a determinant sign")
+        bad = None
+        for cf, mat, d in sel:
+            ms = [sum(tv[i] * mat[i][j] for i in range(3)) for j in range(3)]
+            for k in (1, 2, 3):
+                res = L.run(lambda: cc(Sym.of(ms[0]), Sym.of(ms[1]),
+                                       Sym.of(ms[2]), k,
+                                       **{n: Sym.of(v)
+                                          for n, v in cf.items()}))
+                good = res[0] == "ok" and isinstance(
+                    res[1], Rat) and res[1].same(_rat(tv[k - 1]))
+                if not good and bad is None:
+                    bad = (cf, d, k, res)
+        ctx.ob("R18.5", bad is None,
+               f"all {len(sel)} invertible non-negative spill matrices of "
+               f"the grid with {lab} determinant are inverted exactly"
+               if bad is None else
+               f"spill matrix { {k_: str(v) for k_, v in bad[0].items()} } "
+               f"(non-negative, determinant {bad[1]}) is invertible, but "
+               f"correct_crosstalk(channel {bad[2]}) gives "
+               + (f"{bad[3][0]} {bad[3][1]}: {str(bad[3][2])[:80]}"
+                  if bad[3][0] != "ok" else "a different value")
+               + " - only negative coefficients and an exactly singular "
+               "matrix may be refused", node=gm_node,
+               label=f"invertible spill with {lab} determinant is corrected")
     # two-channel use: defaults are zero
     c2 = {n: (c[n] if n in ("ct21", "ct12") else 0) for n in names}
     m2 = [t[0] + t[1] * c["ct21"], t[1] + t[0] * c["ct12"], t[2]]
